@@ -632,16 +632,22 @@ def run(ctx):
     t0 = time.time()
     n_eth = part_eth_abi(ctx, wrapped)
     n_reason = part_reasons(ctx, C.quick_configs() if quick else cfgs)
+    ctx.log(f"eth_abi + reasons: {time.time() - t0:.1f}s")
+    t0 = time.time()
     n_reason += part_literals(ctx, pairs, cfgs, 1 if quick else 3)
+    ctx.log(f"literal/storage/raw exits: {time.time() - t0:.1f}s")
+    t0 = time.time()
     qc = C.quick_configs()
     n_reason += part_widening(ctx, [qc[i] for i in (0, 1, 3, 4, 6, 9)] if quick else cfgs)
-    ctx.log(f"reasons: {time.time() - t0:.1f}s")
+    ctx.log(f"widening: {time.time() - t0:.1f}s")
+    t0 = time.time()
     zp_ok, zp = part_zero_pad_template(ctx)
     struct_bad = part_encoder_structure(ctx)
     n_tpl = 0
     if tpl_err is None:
         try:
             n_tpl = part_templates(ctx, tie["ok"])
+            ctx.log(f"templates run in Coq: {time.time() - t0:.1f}s")
         except Exception as e:  # noqa  (an observed template that misbehaves badly can make the evaluator run away)
             report(ctx, "correspondence-broken", "running the observed templates in Coq failed",
                    {"error": f"{type(e).__name__}: {e}"[:600]}, "tplrun-error")
